@@ -216,6 +216,7 @@ pub fn c16(job: &Job, out: &mut Out) {
     }
     let txt = String::from_utf8_lossy(&o.stdout).to_string();
     let mut rows = 0;
+    let mut vrows = 0;
     for l in txt.lines() {
         let f: Vec<&str> = l.split_whitespace().collect();
         if f.first() == Some(&"WIT") {
@@ -223,6 +224,42 @@ pub fn c16(job: &Job, out: &mut Out) {
             let exp = vec![true, true, true, false, false, true, false, false];
             if got != exp {
                 panic!("GDSL_MC_HARNESS: witness family {} has auto traits {:?}, expected {:?}", f[1], got, exp);
+            }
+            continue;
+        }
+        if f.first() == Some(&"VROW") {
+            // values whose types cannot be named: search builders, paths, iterators, yielded edges / nodes
+            vrows += 1;
+            out.stats.inc("evaluations");
+            out.stats.inc("value_probes");
+            let (fl, what) = (f[1], f[2]);
+            let cls: Vec<usize> = f[3..6].iter().map(|x| x.parse().unwrap()).collect();
+            let (send, sync) = (f[6] == "true", f[7] == "true");
+            let all_ss = cls.iter().all(|c| *c == 0);
+            let is_sync_flavour = fl.starts_with("sync_");
+            if !all_ss {
+                out.stats.inc("nontrivial");
+            }
+            let builder = what.contains("builder");
+            // necessary direction only: nothing handed out by the library may cross threads when a
+            // payload may not, nothing of the plain flavours ever, and a search builder (which
+            // holds an unconstrained `&mut dyn FnMut`) must never be Send
+            let mut wrong: Vec<&str> = Vec::new();
+            if (!is_sync_flavour || !all_ss) && send {
+                wrong.push("Send");
+            }
+            if (!is_sync_flavour || !all_ss) && sync {
+                wrong.push("Sync");
+            }
+            if builder && send && !wrong.contains(&"Send") {
+                wrong.push("Send");
+            }
+            for tr in wrong {
+                out.report(mk(
+                    format!("{}/value:{}/{}-although-it-must-not-be", fl, what, tr),
+                    format!("the {} value of gdsl::{} with K: {}, N: {}, E: {} is {} [hooks {}]", what, fl, CLASS_NAMES[cls[0]], CLASS_NAMES[cls[1]], CLASS_NAMES[cls[2]], tr, mode),
+                    json!({"flavour": fl, "value": what, "classes": cls}),
+                ));
             }
             continue;
         }
@@ -267,6 +304,9 @@ pub fn c16(job: &Job, out: &mut Out) {
     }
     if rows != 2 * 64 * 12 {
         panic!("GDSL_MC_HARNESS: expected {} table rows, got {}", 2 * 64 * 12, rows);
+    }
+    if vrows != 10 * (2 * 16 + 2 * 14) {
+        panic!("GDSL_MC_HARNESS: expected {} value-probe rows, got {}", 10 * (2 * 16 + 2 * 14), vrows);
     }
     // compile-time obligations, generic over K, N, E
     let rlib = find_rlib(&target).unwrap_or_else(|| panic!("GDSL_MC_HARNESS: libgdsl rlib not found under {:?}", target));
